@@ -61,133 +61,7 @@ func runC09(c *Ctx) {
 	if validate == nil || expireF == nil || createdAtF == nil || csrfExpireF == nil {
 		return
 	}
-	expParam := validate.Params[2]
-	c.Walk(rule, validate, func(p *walk.Path) {
-		rv, ok := p.ReturnDV(2)
-		if !ok {
-			return
-		}
-		if b, k := p.Truth(rv, p.End()); k && !b {
-			return
-		}
-		key := "ok-return|" + fnKey(validate)
-		at := p.End()
-		// every operand is resolved through inlined helper frames (a helper extracted from Validate takes the
-		// expiration and the timestamp as parameters)
-		isExp := func(v ssa.Value, ctx walk.DV) bool { return p.Resolve(p.Op(v, ctx)).V == ssa.Value(expParam) }
-		// unlimited lifetime configured
-		zero := false
-		for _, a := range p.Atoms(at) {
-			if b, ok := a.DV.V.(*ssa.BinOp); ok && !a.IsNil && a.Val && (b.Op == token.EQL || b.Op == token.NEQ) {
-				for _, pair := range [][2]ssa.Value{{b.X, b.Y}, {b.Y, b.X}} {
-					if n, ok := ConstInt(pair[1]); ok && n == 0 && isExp(pair[0], a.DV) {
-						zero = true
-					}
-				}
-			}
-		}
-		if zero {
-			c.ok(rule, key+"|no-expiry", p.Exit, "expiration==0: lifetime checking disabled by configuration")
-			return
-		}
-		var after, before *walk.Call
-		for _, cl := range p.Calls() {
-			cl := cl
-			if b, k := p.ResultTruth(cl.DV(), -1, at); !(k && b) {
-				continue
-			}
-			if isTimeMethod(cl.C, "After") {
-				after = &cl
-			}
-			if isTimeMethod(cl.C, "Before") {
-				before = &cl
-			}
-		}
-		if after == nil || before == nil {
-			c.bad(rule, key, p.Exit, "Validate reports ok with a non-zero expiration without both t.After(lower)==true and t.Before(upper)==true", p, at)
-			return
-		}
-		// t: time.Unix(int64(Atoi(parts[1])), 0)
-		tOK := func(dv walk.DV) bool {
-			r := p.Resolve(dv)
-			u, ok := r.V.(*ssa.Call)
-			if !ok || !isStd(&u.Call, "time", "Unix") {
-				return false
-			}
-			if n, ok := ConstInt(u.Call.Args[1]); !ok || n != 0 {
-				return false
-			}
-			cvr := p.Resolve(p.Op(u.Call.Args[0], r))
-			cv, ok := cvr.V.(*ssa.Convert)
-			if !ok {
-				return false
-			}
-			exr := p.Resolve(p.Op(cv.X, cvr))
-			ex, ok := exr.V.(*ssa.Extract)
-			if !ok || ex.Index != 0 {
-				return false
-			}
-			atr := p.Resolve(p.Op(ex.Tuple, exr))
-			atoi, ok := atr.V.(*ssa.Call)
-			if !ok || !isStd(&atoi.Call, "strconv", "Atoi") {
-				return false
-			}
-			idx, ok := indexLoad(p.Resolve(p.Op(atoi.Call.Args[0], atr)).V)
-			return ok && idx == 1
-		}
-		if !tOK(p.Recv(*after)) || !tOK(p.Recv(*before)) {
-			c.bad(rule, key, p.Exit, "the time compared against the window is not time.Unix(Atoi(timestamp part), 0)", p, at)
-			return
-		}
-		// operands: now.Add(d) with now = time.Now()
-		bound := func(dv walk.DV) (d walk.DV, ok bool) {
-			r := p.Resolve(dv)
-			add, ok := r.V.(*ssa.Call)
-			if !ok || !isTimeMethod(&add.Call, "Add") {
-				return walk.DV{}, false
-			}
-			now, ok := p.Resolve(p.Op(add.Call.Args[0], r)).V.(*ssa.Call)
-			if !ok || !isStd(&now.Call, "time", "Now") {
-				return walk.DV{}, false
-			}
-			return p.Resolve(p.Op(add.Call.Args[1], r)), true
-		}
-		lo, ok1 := bound(p.Arg(*after, 1))
-		hi, ok2 := bound(p.Arg(*before, 1))
-		if !ok1 || !ok2 {
-			c.bad(rule, key, p.Exit, "the window bounds are not time.Now().Add(·)", p, at)
-			return
-		}
-		negExp := false
-		switch x := lo.V.(type) {
-		case *ssa.BinOp:
-			if x.Op == token.MUL {
-				for _, pair := range [][2]ssa.Value{{x.X, x.Y}, {x.Y, x.X}} {
-					if n, ok := ConstInt(pair[1]); ok && n == -1 && isExp(pair[0], lo) {
-						negExp = true
-					}
-				}
-			}
-			if x.Op == token.SUB {
-				if n, ok := ConstInt(x.X); ok && n == 0 && isExp(x.Y, lo) {
-					negExp = true
-				}
-			}
-		case *ssa.UnOp:
-			if x.Op == token.SUB && isExp(x.X, lo) {
-				negExp = true
-			}
-		}
-		if !negExp {
-			c.bad(rule, key, p.Exit, "the lower bound of the validity window is not now - expiration (exactly the expiration argument)", p, at)
-			return
-		}
-		if n, ok := ConstInt(hi.V); !ok || n != int64(5*60*1e9) {
-			c.bad(rule, key, p.Exit, "the upper bound of the validity window is not now + 5 minutes", p, at)
-			return
-		}
-		c.ok(rule, key+"|window", p.Exit, "t=Unix(Atoi(parts[1])); t.After(Now()-expiration) && t.Before(Now()+5m)")
-	})
+	runValidateWindowRule(c, rule)
 
 	// ---- R2 ---------------------------------------------------------------------------------
 	rule = "R2-callers-pass-expire"
@@ -863,4 +737,142 @@ func runC09R11(c *Ctx, rule string) {
 	if n == 0 {
 		c.R.Unknown(rule, "created-at-writer|none", "-", "no store to SessionState.CreatedAt found")
 	}
+}
+
+// runValidateWindowRule (C09.R1, also C11.R9): Validate reports ok only if expiration==0 or the signed timestamp lies in
+// (now-expiration, now+5 minutes). The upper bound's tolerance matters for sign-out too: replicas whose clocks differ
+// by seconds would otherwise refuse a fresh ticket now and honour it later, after the stored session it names has
+// been orphaned by a new login and survived the sign-out.
+func runValidateWindowRule(c *Ctx, rule string) {
+	validate := c.Fn(rule, "pkg/encryption.Validate")
+	if validate == nil || len(validate.Params) < 3 {
+		return
+	}
+	expParam := validate.Params[2]
+	c.Walk(rule, validate, func(p *walk.Path) {
+		rv, ok := p.ReturnDV(2)
+		if !ok {
+			return
+		}
+		if b, k := p.Truth(rv, p.End()); k && !b {
+			return
+		}
+		key := "ok-return|" + fnKey(validate)
+		at := p.End()
+		// every operand is resolved through inlined helper frames (a helper extracted from Validate takes the
+		// expiration and the timestamp as parameters)
+		isExp := func(v ssa.Value, ctx walk.DV) bool { return p.Resolve(p.Op(v, ctx)).V == ssa.Value(expParam) }
+		// unlimited lifetime configured
+		zero := false
+		for _, a := range p.Atoms(at) {
+			if b, ok := a.DV.V.(*ssa.BinOp); ok && !a.IsNil && a.Val && (b.Op == token.EQL || b.Op == token.NEQ) {
+				for _, pair := range [][2]ssa.Value{{b.X, b.Y}, {b.Y, b.X}} {
+					if n, ok := ConstInt(pair[1]); ok && n == 0 && isExp(pair[0], a.DV) {
+						zero = true
+					}
+				}
+			}
+		}
+		if zero {
+			c.ok(rule, key+"|no-expiry", p.Exit, "expiration==0: lifetime checking disabled by configuration")
+			return
+		}
+		var after, before *walk.Call
+		for _, cl := range p.Calls() {
+			cl := cl
+			if b, k := p.ResultTruth(cl.DV(), -1, at); !(k && b) {
+				continue
+			}
+			if isTimeMethod(cl.C, "After") {
+				after = &cl
+			}
+			if isTimeMethod(cl.C, "Before") {
+				before = &cl
+			}
+		}
+		if after == nil || before == nil {
+			c.bad(rule, key, p.Exit, "Validate reports ok with a non-zero expiration without both t.After(lower)==true and t.Before(upper)==true", p, at)
+			return
+		}
+		// t: time.Unix(int64(Atoi(parts[1])), 0)
+		tOK := func(dv walk.DV) bool {
+			r := p.Resolve(dv)
+			u, ok := r.V.(*ssa.Call)
+			if !ok || !isStd(&u.Call, "time", "Unix") {
+				return false
+			}
+			if n, ok := ConstInt(u.Call.Args[1]); !ok || n != 0 {
+				return false
+			}
+			cvr := p.Resolve(p.Op(u.Call.Args[0], r))
+			cv, ok := cvr.V.(*ssa.Convert)
+			if !ok {
+				return false
+			}
+			exr := p.Resolve(p.Op(cv.X, cvr))
+			ex, ok := exr.V.(*ssa.Extract)
+			if !ok || ex.Index != 0 {
+				return false
+			}
+			atr := p.Resolve(p.Op(ex.Tuple, exr))
+			atoi, ok := atr.V.(*ssa.Call)
+			if !ok || !isStd(&atoi.Call, "strconv", "Atoi") {
+				return false
+			}
+			idx, ok := indexLoad(p.Resolve(p.Op(atoi.Call.Args[0], atr)).V)
+			return ok && idx == 1
+		}
+		if !tOK(p.Recv(*after)) || !tOK(p.Recv(*before)) {
+			c.bad(rule, key, p.Exit, "the time compared against the window is not time.Unix(Atoi(timestamp part), 0)", p, at)
+			return
+		}
+		// operands: now.Add(d) with now = time.Now()
+		bound := func(dv walk.DV) (d walk.DV, ok bool) {
+			r := p.Resolve(dv)
+			add, ok := r.V.(*ssa.Call)
+			if !ok || !isTimeMethod(&add.Call, "Add") {
+				return walk.DV{}, false
+			}
+			now, ok := p.Resolve(p.Op(add.Call.Args[0], r)).V.(*ssa.Call)
+			if !ok || !isStd(&now.Call, "time", "Now") {
+				return walk.DV{}, false
+			}
+			return p.Resolve(p.Op(add.Call.Args[1], r)), true
+		}
+		lo, ok1 := bound(p.Arg(*after, 1))
+		hi, ok2 := bound(p.Arg(*before, 1))
+		if !ok1 || !ok2 {
+			c.bad(rule, key, p.Exit, "the window bounds are not time.Now().Add(·)", p, at)
+			return
+		}
+		negExp := false
+		switch x := lo.V.(type) {
+		case *ssa.BinOp:
+			if x.Op == token.MUL {
+				for _, pair := range [][2]ssa.Value{{x.X, x.Y}, {x.Y, x.X}} {
+					if n, ok := ConstInt(pair[1]); ok && n == -1 && isExp(pair[0], lo) {
+						negExp = true
+					}
+				}
+			}
+			if x.Op == token.SUB {
+				if n, ok := ConstInt(x.X); ok && n == 0 && isExp(x.Y, lo) {
+					negExp = true
+				}
+			}
+		case *ssa.UnOp:
+			if x.Op == token.SUB && isExp(x.X, lo) {
+				negExp = true
+			}
+		}
+		if !negExp {
+			c.bad(rule, key, p.Exit, "the lower bound of the validity window is not now - expiration (exactly the expiration argument)", p, at)
+			return
+		}
+		if n, ok := ConstInt(hi.V); !ok || n != int64(5*60*1e9) {
+			c.bad(rule, key, p.Exit, "the upper bound of the validity window is not now + 5 minutes", p, at)
+			return
+		}
+		c.ok(rule, key+"|window", p.Exit, "t=Unix(Atoi(parts[1])); t.After(Now()-expiration) && t.Before(Now()+5m)")
+	})
 }
